@@ -146,6 +146,8 @@ pub struct GateSt {
     pub open: bool,
     pub opened_at: u64,
     pub wakers: Vec<Waker>,
+    /// every waker ever registered (stale ones included): `rewake` fires them again, as the Waker contract allows
+    pub history: Vec<Waker>,
 }
 
 #[derive(Default)]
@@ -452,7 +454,34 @@ impl World {
         });
         self.hist(|| format!("BEGIN #{} on task {}", op, task));
         if let Some((p_, c, d)) = fail {
-            let obj = self.with(|i| i.ops[op].obj);
+            let (obj, kind, occ_cancelled_futsync) = self.with(|i| {
+                let obj = i.ops[op].obj;
+                let occ = i.objs[obj].occupant.filter(|o| *o != op).or_else(|| None);
+                let _ = occ;
+                (obj, i.ops[op].kind, false)
+            });
+            // an overlap / order violation is also a violation of the starting operation's own contract
+            // (sync: "once the operations ahead of it have completed"; try_sync / future_sync / pipes: "exclusive, in-order access")
+            if p_ == "C01" || p_ == "C02" {
+                let extra = match kind {
+                    Kind::Sync => Some("C04"),
+                    Kind::TrySync => Some("C09"),
+                    Kind::FutSync => Some("C08"),
+                    Kind::PipeItem => Some("C11"),
+                    _ => None,
+                };
+                if let Some(e) = extra {
+                    self.note(e, if p_ == "C01" { "not-exclusive" } else { "not-in-order" }, Some(obj), Some(op), d.clone());
+                }
+                // the operation that was overlapped: a cancelled future_sync whose future should be gone
+                if p_ == "C01" && c == "overlap" {
+                    let victim_fs = self.with(|i| i.ops.iter().enumerate().any(|(aid, a)| aid != op && a.obj == obj && a.kind == Kind::FutSync && a.start != 0 && !a.ended()));
+                    if victim_fs && kind != Kind::FutSync {
+                        self.note("C08", "later-operation-started-inside-slot", Some(obj), Some(op), d.clone());
+                    }
+                }
+                let _ = occ_cancelled_futsync;
+            }
             self.fail(p_, c, Some(obj), Some(op), d);
         }
     }
@@ -588,6 +617,30 @@ impl World {
 
     pub fn set_stage(&self, caller: usize, stage: Stage) {
         self.with(|i| i.callers[caller].stage = stage);
+    }
+
+    /// Fires every waker that was ever registered with the gate again (stale / spurious wake-ups)
+    pub fn rewake(&self, g: usize) {
+        let wakers: Vec<Waker> = self.with(|i| {
+            if !i.gates[g].history.is_empty() {
+                i.stats.stale_wakes += 1;
+            }
+            i.gates[g].history.clone()
+        });
+        self.hist(|| format!("re-wake {} stale waker(s) of gate g{}", wakers.len(), g));
+        for wk in wakers {
+            wk.wake();
+        }
+    }
+
+    /// Drops the wakers the shadow state holds (root teardown, inside the execution)
+    pub fn clear_wakers(&self) {
+        let (a, b, c): (Vec<Vec<Waker>>, Vec<Vec<Waker>>, Vec<Option<Waker>>) = self.with(|i| {
+            (i.gates.iter_mut().map(|g| std::mem::take(&mut g.wakers)).collect(), i.gates.iter_mut().map(|g| std::mem::take(&mut g.history)).collect(), i.streams.iter_mut().map(|s| s.waker.take()).collect())
+        });
+        drop(a);
+        drop(b);
+        drop(c);
     }
 
     pub fn open_gate(&self, g: usize) {
